@@ -3,12 +3,13 @@
 A `Value` is tracked as (lovelace, q, other): lovelace exactly, q = quantity of ONE arbitrary but fixed native asset,
 other = "some different asset is present".  Because the fixed asset is arbitrary, an equation proved for q holds for
 every asset.  The summaries below state how the library's Value operations act on this abstraction; each summary is
-itself established on the real code by an E1 (Kani) harness of C14 over 2x2 bundles ("proved summaries", DESIGN 1.2):
+itself established on the real code by the C14 E2 obligations over shaped bundles (c14_e2_value_checked_add /
+checked_sub / clamped_sub / partial_cmp: 7 x 7 bundle shapes over 2 policies x 2 names, all u64 quantities):
 
   checked_add : lovelace and q add exactly, Err on u64 overflow of either
-  checked_sub : lovelace exact or Err on underflow; q' = max(q_l - q_r, 0) (assets CLAMP — this is the library's actual
-                behaviour and the source of the collateral findings); result has no assets iff every asset reached 0
-  clamped_sub : as checked_sub with lovelace clamped
+  checked_sub : lovelace and every asset exact, Err on underflow of any of them (since fix fd1ee69; before, assets
+                were clamped at 0 silently); result has no assets iff every asset reached 0
+  clamped_sub : every component max(l - r, 0)
   eq          : lovelace equal and every asset equal (here: q equal, 'other' parts equal as uninterpreted identities)
 """
 import re
@@ -131,6 +132,16 @@ def s_checked_sub(E, c, args):
     i = E.choose([ca >= cb, ca < cb], "coin sub underflow")
     if i == 1:
         return err("coin underflow")
+    if mb is not None:
+        # every asset is subtracted exactly or the call fails: the tracked asset decides for itself, the untracked ones
+        # ("other") may fail whenever the right-hand side has some
+        qa = ma[0] if ma is not None else z3.IntVal(0)
+        if E.choose([qa >= mb[0], qa < mb[0]], "asset sub underflow") == 1:
+            return err("asset underflow")
+        oth_fail = E.fresh("other_asset_underflow", "bool")
+        E.pc.append(z3.Implies(oth_fail, mb[1]))
+        if E.choose([z3.Not(oth_fail), oth_fail], "other asset underflow") == 1:
+            return err("asset underflow")
     return ok(mk_value(ca - cb, _sub_assets(E, ma, mb)))
 
 
